@@ -208,14 +208,17 @@ def main(argv=None):
         level="other",
         rule="every well-typed program (NumPy accepts every statement) of <= 3 statements (thorough: + a third of the 4-statement "
              "programs with >= 2 in-place statements) with at least one in-place statement, over the statement templates of "
-             "harness/viewprog.py, from a base of shape (6,) or (2,3); non-trivial = a program that ran to the end in both worlds",
+             "harness/viewprog.py, from a base of shape (6,) or (2,3), C-ordered and (<= 2 statements in quick) non-C-ordered (2,3), (3,2); plus the 4-statement family "
+             "two views, .shape assigned to one tensor of the family, one in-place update"; plus the constant-flag family (constant or non-constant "
+             "base, a view created with an explicit constant=True/False through reshape/transpose/swapaxes/expand_dims, a second view, one in-place "
+             "statement on any member); non-trivial = a program that ran to the end in both worlds",
         explanation="programs are enumerated exhaustively within the grammar; data are symbolic and pairwise distinct, so a value that "
                     "reaches the wrong element or a stale pre-mutation value is a term mismatch; after EVERY statement all live tensors "
                     "are compared with the NumPy twin: element terms (z3), np.shares_memory for all pairs, .base identity, id(), constant",
         functions=["mygrad.tensor_base.Tensor._op (view detection)", "Tensor._in_place_op", "Tensor.shape setter",
                    "mygrad._utils.duplicating_graph.DuplicatingGraph/mirror_tensor/reroute_ops_through",
                    "mygrad._tensor_core_ops.indexing.GetItem/SetItem", "view ops (Reshape, Transpose, SwapAxes, ...)"],
-        bounds={"history length": "<= 3 (4 thorough, strided)", "bases": "(6,), (2,3)", "live names": "<= 4"},
+        bounds={"history length": "<= 3 (4 thorough, strided; targeted 4-statement family in quick)", "bases": "(6,), (2,3), F-ordered (2,3), (3,2); constant and non-constant", "live names": "<= 4"},
         assumptions=["one graph epoch (no backward/clear_graph inside the program)", "object arrays stand for float64 arrays"],
         outside=["longer histories", "diagonal einsum views (covered in C06)"],
         exhaustive=True,
